@@ -54,12 +54,7 @@ func ruleC13R1(r *Run) {
 	}
 	d := dec[0]
 	r.Check("checkFuzz#decode.endianness", d.Instr.Pos(), d.Key == "(encoding/binary.littleEndian).Uint64", "words are decoded little-endian", "words are decoded with "+d.Key+" instead of little-endian")
-	var loop *loopInfo
-	for _, l := range loopsOf(fn) {
-		if l.Body[d.Instr.Block()] && (loop == nil || len(l.Body) < len(loop.Body)) {
-			loop = l
-		}
-	}
+	loop := innermostLoop(d.Instr)
 	if loop == nil {
 		r.Fail("checkFuzz#decode.loop", d.Instr.Pos(), "the decoding call is not inside a loop")
 		return
@@ -103,7 +98,7 @@ func ruleC13R1(r *Run) {
 					okSrc = false
 					r.Fail("checkFuzz#advance", pred.Instrs[len(pred.Instrs)-1].Pos(), "input is advanced to "+p.expr(er)+" (expected input[n:] with n the number of bytes copied)")
 				}
-			} else if er != ssa.Value(input) {
+			} else if p.resolve(er) != ssa.Value(input) {
 				okSrc = false
 			}
 		}
@@ -189,7 +184,7 @@ func ruleC13R2(r *Run) {
 	r.Floor("skip calls in checkFuzz", nSkip, 1)
 	r.Floor("failing calls in checkFuzz", nFatal, 1)
 	// exhaustive: from the e != nil edge every path passes a Skip* or a stopping failure (Fatal*, FailNow)
-	for _, b := range fn.Blocks {
+	for _, b := range p.body(fn) {
 		iff, ok := b.Instrs[len(b.Instrs)-1].(*ssa.If)
 		if !ok {
 			continue
@@ -589,7 +584,7 @@ func ruleC14R6(r *Run) {
 	// functions that acquire T.mu themselves
 	acquires := map[*ssa.Function]bool{}
 	for _, fn := range p.FuncList {
-		for _, b := range fn.Blocks {
+		for _, b := range p.body(fn) {
 			for _, in := range b.Instrs {
 				if op := p.lockOpOf(in); op != nil && (op.kind == "Lock" || op.kind == "RLock") && strings.HasSuffix(op.path, ".mu") {
 					acquires[fn] = true
